@@ -75,6 +75,14 @@ def cps(s):
     return [ord(c) for c in s]
 
 
+def sfloat(x):
+    """total: a record whose probability field is not a number gets -1 (such a file is already broken)"""
+    try:
+        return float(x)
+    except ValueError:
+        return -1.0
+
+
 def file_traces(tid0, res, encoding, meta, desc):
     """for every rule file: neutral view vs each real loader's view"""
     from lib_scorer.pcfg_password_scorer import PCFGPasswordScorer
@@ -101,7 +109,7 @@ def file_traces(tid0, res, encoding, meta, desc):
         fd = os.path.join(d, folder)
         for fn in sorted(os.listdir(fd)) if os.path.isdir(fd) else []:
             idx = fn.split('.')[0]
-            want = [(v, float(p)) for v, p in rulesets.neutral_value_prob(os.path.join(fd, fn), encoding)]
+            want = [(v, sfloat(p)) for v, p in rulesets.neutral_value_prob(os.path.join(fd, fn), encoding)]
             name = cat + idx
             got_g = []
             if ok_g and name in pcfg.grammar:
@@ -126,8 +134,8 @@ def file_traces(tid0, res, encoding, meta, desc):
     for fn, key in (('IP.level', 'ip'), ('CP.level', 'cp')):
         want = []
         for ln in rulesets.neutral_read(os.path.join(od, fn), encoding):
-            lvl, k = ln.split('\t', 1)
-            want.append((k, float(lvl)))
+            lvl, k = ln.split('\t', 1) if '\t' in ln else ('-1', ln)
+            want.append((k, sfloat(lvl)))
         got = []
         if ok_og:
             if key == 'ip':
@@ -188,6 +196,29 @@ def main(pid, tier, seed):
     for enc in ENCODINGS:
         chars = chars_for(meas, members, rng, enc)
         groups = [chars] if tier == 'quick' else [chars[i::3] for i in range(3)] + [chars]
+        # $HEX[] lines can carry characters that a plain line cannot: every rejected class must stay rejected there
+        if enc != 'utf-16':
+            bad = []
+            for k in linefmt.CLASSES:
+                if k in meas['Rejects'] and k != 'SUR':
+                    for cp in members[k][:3]:
+                        try:
+                            chr(cp).encode(enc)
+                            bad.append(chr(cp))
+                        except UnicodeEncodeError:
+                            pass
+            pws = training_list(chars[:6], rng)
+            lines = [p.encode(enc) for p in pws]
+            for c in bad:
+                for s_ in ('ab' + c + 'cd', c + 'x', 'x' + c, c):
+                    lines.append(b'$HEX[' + s_.encode(enc).hex().encode() + b']')
+            lines.append(b'$HEX[]')
+            res = train.train(raw=b'\n'.join(lines) + b'\n', encoding=enc, ngram=2, alphabet_size=100, coverage=0.6)
+            if res['ok']:
+                n_train += 1
+                tr, tid = file_traces(tid, res, enc, meta, {'encoding': enc, 'variant': 'hex lines carrying rejected characters',
+                                                            'classes': sorted(meas['Rejects'])})
+                traces += tr
         for gi, grp in enumerate(groups):
             pws = training_list(grp, rng)
             for variant in (['plain'] if tier == 'quick' else ['plain', 'hex']):
